@@ -137,14 +137,15 @@ class Ctx:
         self.obligations.append({'name': name, 'ok': bool(ok), 'detail': detail[-2000:] if detail else ''})
 
     # ---- proof obligations ----------------------------------------------
-    def coq_make(self, timeout=3000):
+    def coq_make(self, timeout=3000, keep_going=False, target=None):
         """Incremental build of the whole development (no-op when up to date)."""
         lock = open(os.path.join(BUILD, '.make.lock'), 'w')
         fcntl.flock(lock, fcntl.LOCK_EX)
         try:
             if not os.path.exists(os.path.join(COQ, 'Makefile')):
                 subprocess.run(['coq_makefile', '-f', '_CoqProject', '-o', 'Makefile'], cwd=COQ, capture_output=True)
-            p = subprocess.run(['timeout', str(timeout), 'make', '-j16'], cwd=COQ, capture_output=True, text=True)
+            p = subprocess.run(['timeout', str(timeout), 'make', '-j16'] + (['-k'] if keep_going else []) +
+                               ([target] if target else []), cwd=COQ, capture_output=True, text=True)
             return p.returncode == 0, (p.stdout + p.stderr)
         finally:
             fcntl.flock(lock, fcntl.LOCK_UN)
@@ -153,7 +154,7 @@ class Ctx:
     def props_obligations(self, extra_files=()):
         """One obligation per Theorem of Props/<pid>.v: the file must compile (full .vo) and the
         Print Assumptions output must be captured."""
-        ok, log = self.coq_make()
+        ok, log = self.coq_make(target='theories/Props/%s.vo' % self.pid)
         src = os.path.join(COQ, 'theories', 'Props', self.pid + '.v')
         vo = src[:-2] + '.vo'
         text = open(src).read()
